@@ -83,6 +83,33 @@ def getFromObjectChar : CharObj → Option (Option (List Nat) × Bool)
   | .none => some (Option.none, false)
   | .other => Option.none               -- TypeError
 
+/-- a cell of a fixed-size `char` member after `fill_from_PyObject_char(obj, name, in, insize)`. -/
+inductive Cell where
+  | chr (c : Nat)      -- a character of the argument
+  | nul                -- '\0' written by the helper (terminator or strncpy padding)
+  | old (i : Nat)      -- untouched: what cell i held before
+  deriving DecidableEq, Repr
+
+/-- `strncpy(in, s, cap)`: the first `cap` characters, then zero padding up to `cap`; never more than `cap` cells. -/
+def strncpyCells (s : List Nat) (cap : Nat) : List Cell :=
+  (s.take cap).map Cell.chr ++ List.replicate (cap - s.length) Cell.nul
+
+/-- `fill_from_PyObject_char` on a member of `cap` cells (`cap` = the declared array size): a string is copied
+with `strncpy(in, data, insize)`, `None` stores an empty string (`in[0] = 0`), anything else is `TypeError`. -/
+def fillChar (cap : Nat) : CharObj → Option (List Cell)
+  | .str s => some (strncpyCells s cap)
+  | .bytes s => some (strncpyCells s cap)
+  | .none => some (match cap with
+      | 0 => []
+      | n + 1 => Cell.nul :: (List.range n).map (fun i => Cell.old (i + 1)))
+  | .other => Option.none
+
+/-- what the getter of the member may read: up to the first NUL, never past the member. -/
+def readCells : List Cell → List Cell
+  | [] => []
+  | Cell.nul :: _ => []
+  | c :: r => c :: readCells r
+
 def charConv (o : CharObj) : Option (Option (List Nat)) := (getFromObjectChar o).map (·.1)
 
 end Shroud.PyList
